@@ -62,6 +62,43 @@ Definition url_string (redacted : bool) (scheme : str) (ui : option userinfo) (h
 Definition redact_url (scheme : str) (ui : option userinfo) (host : str) : str :=
   url_string redact_url_uses_redacted scheme ui host.
 
+(* ---------------------------------------------------------------- the parsers of the secret-bearing flags
+   config.go ParseUserinfo (strings.Cut at the FIRST ':'; empty input / empty user name refused) and host.go
+   ParseHostPortUser (split at the LAST '@'; user info by ParseUserinfo; host and port of the rest: split at the
+   last ':', "*" port written "0").  Host validation (domain name / IP / "*", port range) and IPv6 brackets are
+   not modelled: the differential stream uses hosts the real parser accepts. *)
+Fixpoint cut_last (c : N) (s : str) : option (str * str) :=
+  match s with
+  | [] => None
+  | d :: r => match cut_last c r with
+              | Some (x, y) => Some (d :: x, y)
+              | None => if N.eqb c d then Some ([], r) else None
+              end
+  end.
+
+Definition parse_userinfo (s : str) : option userinfo :=
+  match s with
+  | [] => None
+  | _ => let ui := match cut_byte 58 s with Some (u, p) => (u, Some p) | None => (s, None) end in
+         match fst ui with [] => None | _ => Some ui end
+  end.
+
+Definition norm_port (p : str) : str := if str_eqb p [42] then [48] else p.
+
+Definition parse_hpu (s : str) : option (userinfo * str * str) :=
+  match cut_last 64 s with
+  | None => None
+  | Some (up, hp) =>
+      match parse_userinfo up, cut_last 58 hp with
+      | Some ui, Some (h, port) =>
+          match h, port with
+          | [], _ | _, [] => None
+          | _, _ => Some (ui, h, norm_port port)
+          end
+      | _, _ => None
+      end
+  end.
+
 (* ---------------------------------------------------------------- flag values and their rendering *)
 Inductive value :=
 | VRaw (s : str)                                   (* a flag that carries no secret: its String() *)
